@@ -248,13 +248,21 @@ func LenEnc(b []byte, n uint64) []byte {
 	}
 }
 
-// Bitmap packs bits LSB-first, (n+7)/8 bytes.
-func Bitmap(bits []bool) []byte {
+// Bitmap packs bits LSB-first, (n+7)/8 bytes, unused bits zero.
+func Bitmap(bits []bool) []byte { return BitmapPad(bits, false) }
+
+// BitmapPad is Bitmap with the unused high bits of the last byte set to one when
+// padOnes is true (mysqld leaves them set in per-row NULL bitmaps, and in
+// presence bitmaps produced by bitmap_set_all).
+func BitmapPad(bits []bool, padOnes bool) []byte {
 	b := make([]byte, (len(bits)+7)/8)
 	for i, v := range bits {
 		if v {
 			b[i/8] |= 1 << uint(i%8)
 		}
+	}
+	if padOnes && len(bits)%8 != 0 {
+		b[len(b)-1] |= 0xff << uint(len(bits)%8)
 	}
 	return b
 }
@@ -298,6 +306,11 @@ func OptionalTLV(typ byte, value []byte) []byte {
 // Each entry of rows is the already-encoded bytes of one row (null bitmaps +
 // values for the image(s) the event kind carries).
 func RowsBody(idBytes int, id uint64, flags uint16, v2 bool, extra []byte, ncols int, present1, present2 []bool, rows [][]byte) []byte {
+	return RowsBodyPad(idBytes, id, flags, v2, extra, ncols, present1, present2, rows, false)
+}
+
+// RowsBodyPad is RowsBody with a choice of padding for the presence bitmaps.
+func RowsBodyPad(idBytes int, id uint64, flags uint16, v2 bool, extra []byte, ncols int, present1, present2 []bool, rows [][]byte, padOnes bool) []byte {
 	b := tableID(nil, idBytes, id)
 	b = append(b, byte(flags), byte(flags>>8))
 	if v2 {
@@ -306,9 +319,9 @@ func RowsBody(idBytes int, id uint64, flags uint16, v2 bool, extra []byte, ncols
 		b = append(b, extra...)
 	}
 	b = LenEnc(b, uint64(ncols))
-	b = append(b, Bitmap(present1)...)
+	b = append(b, BitmapPad(present1, padOnes)...)
 	if present2 != nil {
-		b = append(b, Bitmap(present2)...)
+		b = append(b, BitmapPad(present2, padOnes)...)
 	}
 	for _, r := range rows {
 		b = append(b, r...)
@@ -322,13 +335,18 @@ func RowsBody(idBytes int, id uint64, flags uint16, v2 bool, extra []byte, ncols
 // which always has at least a length prefix or fixed width, except zero-width
 // types which use a non-nil empty slice).
 func Image(present []bool, null []bool, cells [][]byte) []byte {
+	return ImagePad(present, null, cells, false)
+}
+
+// ImagePad is Image with a choice of padding for the NULL bitmap.
+func ImagePad(present []bool, null []bool, cells [][]byte, padOnes bool) []byte {
 	var nb []bool
 	for c, p := range present {
 		if p {
 			nb = append(nb, null[c])
 		}
 	}
-	b := Bitmap(nb)
+	b := BitmapPad(nb, padOnes)
 	for c, p := range present {
 		if p && !null[c] {
 			b = append(b, cells[c]...)
